@@ -397,9 +397,8 @@ pub fn direct_oracle(line: &str, trace: &str) -> Vec<String> {
                     }
                 }
             }
-            if field(&w, "ab") == "1" {
-                peer_fault = true;
-            }
+            // an abort is not a fault: the sender may abandon a delivery at any frame; a consistent abort frame (fields omitted
+            // or repeated) leaves a clean state and the deliveries that follow must be received as if nothing had happened
             // asking for rcv-settle-mode second on a link negotiated as first is the sender's fault
             if field(&w, "rsm") == "1" && !link_second {
                 peer_fault = true;
